@@ -9,7 +9,7 @@ import os
 LEVEL = "fault_enumeration"
 RULE = (
     "all sequences over {E exec, F exec->CHECK CONDITION, R replug (node replaced: new inode), U unplug, X replug whose "
-    "stale-handle close() fails} up to length 4 (quick) / 6 (thorough), each followed by one of {nothing, close(), with-exit, "
+    "stale-handle close() fails, O replug whose re-open fails once} up to length 4 (quick) / 5 (thorough), each followed by one of {nothing, close(), with-exit, "
     "with-exit-by-exception, facade with-exit}, x detection {on,off} x {read-only, read-write}; plus ISCSIDevice close/with "
     "sequences.  Invariants at the binding: handle open, inode of the handle == inode at the path (detection on), original "
     "handle kept (detection off), sgio.execute never reached for a vanished node (detection on); at quiescent points exactly "
@@ -23,12 +23,12 @@ ASSUMPTIONS = [
     "next command uses a fresh handle, the stale descriptor is not leaked",
 ]
 
-NONTERM = "EFRUX"
+NONTERM = "EFRUXO"
 TERM = ["", "C", "W", "Y", "S"]
 
 
 def shards(tier, seed):
-    L = 4 if tier == "quick" else 6
+    L = 4 if tier == "quick" else 5
     out = []
     for detect in (True, False):
         for rw in (False, True):
@@ -88,6 +88,7 @@ class World:
         self.sg = sys.modules["sgio"]
         self.handles = []
         self.fail_next_close = False
+        self.fail_next_open = False
         self.open_modes = []
         self.opened_paths = []
         w = self
@@ -95,6 +96,9 @@ class World:
         def vopen(path, mode="r", *a, **kw):
             w.open_modes.append(mode)
             w.opened_paths.append(path)
+            if w.fail_next_open:
+                w.fail_next_open = False
+                raise OSError(13, "injected: re-open of the replaced node failed")
             return FileProxy(open(path, mode, *a, **kw), w)
 
         sd.open = vopen  # module global: intercepts exactly the device-node opens
@@ -115,11 +119,12 @@ def run_sequence(ctx, w, seq, term, detect, rw):
     del w.handles[:]
     del w.open_modes[:]
     w.fail_next_close = False
+    w.fail_next_open = False
     w.sg.log = []
     w.sg.pre_hooks = []
     cfg = "detect_%s" % ("on" if detect else "off")
     wit = {"sequence": seq + term, "detect": detect, "readwrite": rw}
-    state = {"exists": True, "original": None, "pending_close_failure": False, "reached": 0}
+    state = {"exists": True, "original": None, "pending_close_failure": False, "pending_open_failure": False, "handle_lost": False, "reached": 0}
 
     def fail(mech, msg):
         ctx.fail("C15:%s.%s" % (cfg, mech), "%s after events %r" % (msg, wit["sequence"][: state.get("pos", 0) + 1]), wit)
@@ -158,6 +163,8 @@ def run_sequence(ctx, w, seq, term, detect, rw):
     def quiescent(where):
         n = len(devnode.open_fds_on(node))
         want = 1 if is_open else 0
+        if state["handle_lost"] and is_open and n in (0, 1):
+            return  # the injected open failure left the device without a handle until the next successful command
         if n != want:
             fail("descriptor_leak" if n > want else "descriptor_missing", "%d descriptors on the node %s, expected %d" % (n, where, want))
 
@@ -178,7 +185,25 @@ def run_sequence(ctx, w, seq, term, detect, rw):
             sent = state["reached"] - before
             pend = state["pending_close_failure"] and detect
             state["pending_close_failure"] = False if detect else state["pending_close_failure"]
-            if detect and not state["exists"]:
+            opend = state["pending_open_failure"] and detect and state["exists"]
+            if detect:
+                state["pending_open_failure"] = False
+            if opend:
+                # the re-open failed: the error must surface, nothing may be sent; the next command recovers
+                state["handle_lost"] = True
+                if outcome == "returned" or sent:
+                    fail("reopen_failure_hidden", "re-open of the replaced node failed but execute %s and sgio.execute was reached %d times" % (outcome, sent))
+                if w.fail_next_open:
+                    w.fail_next_open = False
+                    fail("stale_handle_not_reopened", "replugged but no re-open was attempted")
+                continue_after = True
+            else:
+                continue_after = False
+                if outcome == "returned" or (evn == "F" and sent == 1):
+                    state["handle_lost"] = False
+            if continue_after:
+                pass
+            elif detect and not state["exists"]:
                 if outcome == "returned":
                     fail("vanished_node_not_reported", "execute returned normally although the node is gone")
             elif pend:
@@ -212,11 +237,18 @@ def run_sequence(ctx, w, seq, term, detect, rw):
             w.fail_next_close = True
             state["pending_close_failure"] = True
             disturbed = True
+        elif evn == "O":
+            devnode.replug(node)
+            state["exists"] = True
+            w.fail_next_open = True
+            state["pending_open_failure"] = True
+            disturbed = True
         ctx.count("events")
     state["pos"] = len(seq)
     # a close failure armed but never consumed must not leak into the terminal close
     if w.fail_next_close:
         w.fail_next_close = False
+    w.fail_next_open = False
     if term:
         try:
             if term == "C":
@@ -245,7 +277,7 @@ def run_sequence(ctx, w, seq, term, detect, rw):
     else:
         # still open: every superseded handle must be closed
         live = [h for h in w.handles if not h.closed]
-        if len(live) != 1:
+        if len(live) != 1 and not (state["handle_lost"] and len(live) == 0):
             fail("superseded_handles_open_%d" % len(live), "%d handles open at the end" % len(live))
         try:
             dev.close()
